@@ -64,7 +64,7 @@ class C09(Prop):
             "after Ready, or inside a frame, or on a library-initiated write. Each faulted execution counts as one evaluation.")
     assumptions = ("'released' = close() called on the socket or the socket object finalised (what frees a real descriptor)",
                    "after ECONNRESET the simulated socket behaves like Linux: later I/O fails, shutdown() raises ENOTCONN")
-    examples = {"quick": 64, "thorough": 2400}
+    examples = {"quick": 160, "thorough": 3200}
 
     def strategy(self, tier):
         small = gen.weighted([(3, gen.data_msg(big=False)), (3, gen.control_msg(("ping",))), (1, gen.control_msg(("pong",)))])
@@ -209,7 +209,13 @@ class C09(Prop):
                                       "closing handshake (close_timeout=5s) but was still iterating at virtual time %s; "
                                       "last events %s" % (k, f, tr.sim.now, tr.names()[-5:]), labels, True, sub)
         # 4. every recv
-        for k in range(n_recv + 1):
+        recv_points = list(range(n_recv + 1))
+        if len(recv_points) > 80:
+            # cost bound for finely segmented streams: the first and last 25 reads and every k-th between
+            step = max(1, len(recv_points) // 30)
+            recv_points = sorted(set(recv_points[:25] + recv_points[-25:] + recv_points[::step]))
+            labels.add("recv_faults_sampled")
+        for k in recv_points:
             for f in RECV_FAULTS:
                 labels.add("fault:recv_" + f)
                 bad = run("recv #%d raises %s" % (k, f), "recv:%d:%s" % (k, f), k > 0,
